@@ -161,8 +161,14 @@ def worker(ctx, job):
     dest = os.path.join(aux, "dest")
     states = [("pristine", "pristine", "bytes", data)] + list(damage.damages(data, other, exhaustive_limit=64 if not quick else 16, aux_dir=aux))
     dest_damages = {st_[0] for st_ in states[1:4]} | {st_[0] for st_ in states[-3:]}
-    for dname, klass, kind, payload in states:
+    # every damage state is also visited with the content file's modification time set back before the entry's time
+    # (damage that keeps or restores the mtime: a swap by rename, a restored backup, bit rot)
+    states = [st_ + (False,) for st_ in states] + [st_ + (True,) for st_ in states if st_[2] == "bytes" and (st_[0] in dest_damages or st_[1] in ("swap", "multibyte"))]
+    for dname, klass, kind, payload, old_mtime in states:
         damage.apply(cpath, kind, payload, aux)
+        if old_mtime:
+            os.utime(cpath, (1_000_000_000, 1_000_000_000))
+            dname = dname + "+old-mtime"
         res["states"] += 1
         for name, by, rk in entries:
             bufs = bufsizes(n, quick) if rk == "stream" else [0]
